@@ -233,7 +233,19 @@ func zero(t types.Type) value {
 	case *types.Pointer:
 		return (*value)(nil)
 	case *types.Array:
-		a := make(array, t.Len())
+		n := t.Len()
+		if n > 1<<20 {
+			// btcd's 4 MiB script slab: only a prefix is materialised (an
+			// access beyond it shows up as an index-out-of-range panic)
+			n = 1 << 13
+		}
+		a := make(array, n)
+		if b, ok := t.Elem().Underlying().(*types.Basic); ok && b.Kind() == types.Uint8 {
+			for i := range a {
+				a[i] = uint8(0)
+			}
+			return a
+		}
 		for i := range a {
 			a[i] = zero(t.Elem())
 		}
@@ -981,14 +993,10 @@ func callBuiltin(caller *frame, callpos token.Pos, fn *ssa.Builtin, args []value
 		}
 		if s, ok := args[1].(string); ok {
 			// append([]byte, ...string) []byte
-			arg0 := args[0].([]value)
-			for i := 0; i < len(s); i++ {
-				arg0 = append(arg0, s[i])
-			}
-			return arg0
+			return appendValues(args[0].([]value), valuesOf([]byte(s)))
 		}
 		// append([]T, ...[]T) []T
-		return append(args[0].([]value), args[1].([]value)...)
+		return appendValues(args[0].([]value), args[1].([]value))
 
 	case "copy": // copy([]T, []T) int or copy([]byte, string) int
 		src := args[1]
@@ -999,7 +1007,23 @@ func callBuiltin(caller *frame, callpos token.Pos, fn *ssa.Builtin, args []value
 		if _, ok := src.(*opaqueBytes); ok {
 			caller.i.unsupported("copy from opaque bytes")
 		}
-		return copy(args[0].([]value), src.([]value))
+		dst, srcv := args[0].([]value), src.([]value)
+		n := len(dst)
+		if len(srcv) < n {
+			n = len(srcv)
+		}
+		if n > 0 {
+			switch srcv[0].(type) {
+			case structure, array:
+				tmp := make([]value, n)
+				for k := 0; k < n; k++ {
+					tmp[k] = copyVal(srcv[k])
+				}
+				copy(dst, tmp)
+				return n
+			}
+		}
+		return copy(dst, srcv)
 
 	case "close": // close(chan T)
 		caller.i.chanClose(args[0].(*mchan))
@@ -1483,3 +1507,151 @@ func checkInterface(i *interpreter, itype *types.Interface, x iface) string {
 	return "" // ok
 }
 
+
+// copyVal deep-copies aggregate values (structs and arrays are values in Go;
+// the interpreter represents them by reference).
+func copyVal(v value) value {
+	switch v := v.(type) {
+	case structure:
+		c := make(structure, len(v))
+		for k, e := range v {
+			c[k] = copyVal(e)
+		}
+		return c
+	case array:
+		c := make(array, len(v))
+		for k, e := range v {
+			c[k] = copyVal(e)
+		}
+		return c
+	}
+	return v
+}
+
+// appendValues implements append with Go's value semantics for aggregate
+// elements: appended elements are copies, and on reallocation the old
+// elements are copied too.
+func appendValues(dst, src []value) []value {
+	if len(src) == 0 {
+		if dst == nil {
+			return src[:0:0]
+		}
+		return dst
+	}
+	agg := false
+	switch src[0].(type) {
+	case structure, array:
+		agg = true
+	}
+	n := len(dst) + len(src)
+	if n <= cap(dst) {
+		out := dst[:n]
+		if agg {
+			tmp := make([]value, len(src))
+			for k, e := range src {
+				tmp[k] = copyVal(e)
+			}
+			copy(out[len(dst):], tmp)
+		} else {
+			copy(out[len(dst):], src)
+		}
+		return out
+	}
+	newCap := 2 * cap(dst)
+	if newCap < n {
+		newCap = n
+	}
+	if newCap < 4 {
+		newCap = 4
+	}
+	out := make([]value, n, newCap)
+	tail := out[n:newCap]
+	for k := range tail {
+		tail[k] = zeroLike(src[0])
+	}
+	if agg {
+		for k, e := range dst {
+			out[k] = copyVal(e)
+		}
+		for k, e := range src {
+			out[len(dst)+k] = copyVal(e)
+		}
+	} else {
+		copy(out, dst)
+		copy(out[len(dst):], src)
+	}
+	return out
+}
+
+// zeroLike returns the zero value with the same shape as v.
+func zeroLike(v value) value {
+	switch v := v.(type) {
+	case *Term:
+		switch v.W {
+		case 0:
+			return false
+		case 8:
+			return uint8(0)
+		case 16:
+			return uint16(0)
+		case 32:
+			return uint32(0)
+		}
+		return uint64(0)
+	case bool:
+		return false
+	case int:
+		return int(0)
+	case int8:
+		return int8(0)
+	case int16:
+		return int16(0)
+	case int32:
+		return int32(0)
+	case int64:
+		return int64(0)
+	case uint:
+		return uint(0)
+	case uint8:
+		return uint8(0)
+	case uint16:
+		return uint16(0)
+	case uint32:
+		return uint32(0)
+	case uint64:
+		return uint64(0)
+	case uintptr:
+		return uintptr(0)
+	case float32:
+		return float32(0)
+	case float64:
+		return float64(0)
+	case string:
+		return ""
+	case structure:
+		c := make(structure, len(v))
+		for k, e := range v {
+			c[k] = zeroLike(e)
+		}
+		return c
+	case array:
+		c := make(array, len(v))
+		for k, e := range v {
+			c[k] = zeroLike(e)
+		}
+		return c
+	case *value:
+		return (*value)(nil)
+	case []value:
+		return []value(nil)
+	case iface:
+		return iface{}
+	case *omap:
+		return (*omap)(nil)
+	case *mchan:
+		return (*mchan)(nil)
+	case *ssa.Function, *closure:
+		return (*ssa.Function)(nil)
+	}
+	return v
+}
